@@ -267,6 +267,7 @@ func (r *refState) cyclic(withStar bool) bool {
 //   star-unsat          satisfiable without the * requests but not with them (or Before("*") and After("*")
 //                       at once while another callback is live)
 //   star-replace        a live callback registered with Before("*") or After("*") has been Replaced
+//                       (since /repo e28c215 the replacement inherits the request: label only)
 //   after-overwritten   c = Before(x).Register(..) is sorted while x is not (c registered before x, or x is
 //                       a * callback): the code stores c's name into x.after, erasing x's own After request
 //   self-target         a live callback names itself, nothing else involved (since /repo 591f9f1: an error)
@@ -332,8 +333,9 @@ func (r *refState) class() string {
 var classCode = map[string]int{"": 0, "self-target": 1, "named-cycle": 2, "star-unsat": 3, "star-replace": 4,
 	"after-overwritten": 5, "self-target-silent": 6}
 
+// star-replace (fixed by /repo e28c215) and self-target (fixed by 591f9f1) are labels only
 var knownClass = map[string]bool{"self-target-silent": true, "named-cycle": true, "star-unsat": true,
-	"star-replace": true, "after-overwritten": true}
+	"after-overwritten": true}
 
 // sigOf: the class of the first in-domain step of the history whose state is in a KNOWN class ("" = none);
 // computed from the input only (twin of C17_CheckK.first_known).  Also returns the distinct classes and
